@@ -357,7 +357,15 @@ class Mon:
     def __init__(self, rec):
         self.rec = rec
         base = yq.engine()
-        self.engines = [(o, base.copy(o)) for o in OPTION_SETS]
+        # every option combination reached in the three ways a host can set it: options of a new engine, a copy of an
+        # engine that was created with the opposite values, per-call options on such an engine
+        self.engines = []
+        for i, o in enumerate(OPTION_SETS):
+            opposite = yq.engine({k: not v for k, v in o.items()})
+            self.engines.append((o, base.copy(o)))
+            self.engines.append((o, opposite.copy(o)))
+            self.engines.append((o, (lambda t, opposite=opposite, o=o: opposite(t, options=o))))
+            self.engines.append((o, yq.engine(dict(o))))
         self.raw = base.copy({'yaql.convertOutputData': False})
         # YaqlInterface finalises whatever Statement.evaluate leaves, so through that path the engine's own
         # yaql.convertOutputData switch must not matter
@@ -413,6 +421,8 @@ class Mon:
     def roundtrip(self, doc, path='statement'):
         rec = self.rec
         for opts, eng in self.engines:
+            if path == 'interface' and not hasattr(eng, 'options'):
+                continue
             rec.count('roundtrip.checked')
             rec.case(('rt', repr(doc), tuple(sorted(opts.items())), path), nontrivial=has_container(doc))
             try:
@@ -457,6 +467,8 @@ class Mon:
             rec.count('expr.raw_evaluation_failed')
             return
         for opts, eng in (self.engines + self.engines_raw if path == 'interface' else self.engines):
+            if path == 'interface' and not hasattr(eng, 'options'):
+                continue
             key = ('expr', text, repr(doc), tuple(sorted(opts.items())), path)
             try:
                 if path == 'interface':
@@ -505,6 +517,8 @@ STUB_CALLS = [
 def stubs(mon, rec):
     doc = {'a': [1, {'b': 2}], 'c': (3, 4)}
     for opts, eng in mon.engines + mon.engines_raw:
+        if not hasattr(eng, 'options'):
+            continue
         for desc, f in STUB_CALLS:
             yi = yaql_interface.YaqlInterface(mon.ctx.create_child_context(), eng)
             rec.count('path.stub')
